@@ -472,3 +472,5 @@ func VerifStrictScan(b []byte) (status int, nreq int) {
 	}
 	return VerifScanOK, nreq
 }
+
+func VerifSpecSlotOf(k []byte) int { return verifSpecSlot(k) }
